@@ -58,7 +58,9 @@ def gen(rng, tier):
         x = [rng.randrange(k) for _ in range(n)]
         keys = [u for u in range(n) if rng.random() < 0.6]
         m = [[u, x[u] if rng.random() < 0.8 else rng.randrange(k)] for u in keys]
-        cases.append({"n": n, "k": k, "fs": fs, "kinds": kinds, "x": x, "m": m})
+        cases.append({"n": n, "k": k, "fs": fs, "kinds": kinds, "x": x, "m": m,
+                      "unit_names": rng.choice(["int", "int", "str", "tuple"]),
+                      "cand_names": rng.choice(["int", "int", "reversed", "falsy_last", "bool_rev", "str"])})
     return cases
 
 
@@ -79,17 +81,35 @@ def build_expr(units, f, kind):
     return Disjunction(*[Conjunction(*c) for c in conjs])
 
 
+def names(c):
+    """unit and candidate NAMES (the model works on positions; mappings are keyed by names)"""
+    n, k = c["n"], c["k"]
+    un = {"int": list(range(n)), "str": ["u%d" % i for i in range(n)], "tuple": [("t", i) for i in range(n)]}[c.get("unit_names", "int")]
+    cn = {"int": list(range(k)), "reversed": list(range(k))[::-1], "falsy_last": [7, 3, 0][3 - k:] if k <= 3 else list(range(k)),
+          "bool_rev": [True, False] if k == 2 else list(range(k))[::-1], "str": ["present", "", "other"][:k]}[c.get("cand_names", "int")]
+    return un, cn
+
+
 def run_impl(c):
     import numpy as np
     from datascope.utility.provenance import Units, Provenance
-    units = Units(units=c["n"], candidates=c["k"])
-    exprs = [build_expr(units, f, kd) for f, kd in zip(c["fs"], c["kinds"])]
+    un, cn = names(c)
+    units = Units(units=un, candidates=cn)
+    units_by_pos = [units[u] for u in un]
+
+    class Pos:     # build_expr addresses units / candidates by position
+        candidates = cn
+
+        def __getitem__(self, i):
+            return units_by_pos[i]
+
+    exprs = [build_expr(Pos(), f, kd) for f, kd in zip(c["fs"], c["kinds"])]
     p = Provenance(exprs)
     x = c["x"]
     qa = p.query(np.array(x, dtype=int))
     assert qa.dtype == np.bool_ and qa.ndim == 1, (qa.dtype, qa.shape)
     ql = p.query(list(x))
-    qm = p.query(dict((u, v) for u, v in c["m"]))
+    qm = p.query(dict((un[u], cn[v]) for u, v in c["m"]))
     qi = p.query(np.array(x, dtype=int), dtype=int)
     assert np.issubdtype(qi.dtype, np.integer)
     return {"data": p.data.tolist(), "q_arr": qa.tolist(), "q_list": np.asarray(ql).tolist(),
